@@ -529,6 +529,11 @@ type c08DagP struct {
 	Next *c08DagP
 }
 type c08DagLeaf struct{ V interface{} }
+type c08ValA struct {
+	B    c08ValB // by value and first: it has the address of its owner
+	Kids []c08ValA
+}
+type c08ValB struct{ As []c08ValA }
 type c08DagQ struct {
 	Next *c08DagQ
 	A, B *c08DagLeaf
@@ -589,6 +594,27 @@ func c08Dag(c *work.Ctx) {
 				n = &universe.RecKid{Name: "n", Val: i, Kids: []*universe.RecKid{n}}
 			}
 			return universe.EmbRec{RecKid: *n, Name: "outer"}
+		}},
+		{"A{B B; Kids []A}, B{As []A}: a recursive struct by value as the first member of another", func(d int) interface{} {
+			n := c08ValA{}
+			for i := 0; i < d; i++ {
+				n = c08ValA{Kids: []c08ValA{n}}
+			}
+			return n
+		}},
+		{"B{As []A} at the top, A{B B; Kids []A} below: a recursive struct by value as the first member of another", func(d int) interface{} {
+			n := c08ValA{}
+			for i := 0; i < d; i++ {
+				n = c08ValA{Kids: []c08ValA{n}}
+			}
+			return c08ValB{As: []c08ValA{n}}
+		}},
+		{"A{B B; Kids []A}, B{As []A}: the chain runs through the by-value member", func(d int) interface{} {
+			n := c08ValA{}
+			for i := 0; i < d; i++ {
+				n = c08ValA{B: c08ValB{As: []c08ValA{n}}}
+			}
+			return &n
 		}},
 		{"[]interface{} nested, every level holds the same nil-interface leaf twice", func(d int) interface{} {
 			leaf := &c08DagLeaf{}
